@@ -61,6 +61,9 @@ func (FixedWindow) New(cfg Config) fiber.Handler {
 		// Calculate when it resets in seconds
 		resetInSec := e.exp - ts
 
+		// Remember the window this hit is counted in
+		windowExp := e.exp
+
 		// Set how many hits we have left
 		remaining := maxRequests - e.currHits
 
@@ -90,9 +93,13 @@ func (FixedWindow) New(cfg Config) fiber.Handler {
 			// Lock entry
 			mux.Lock()
 			e = manager.get(key)
-			e.currHits--
-			remaining++
-			manager.set(key, e, cfg.Expiration)
+			// Only take the hit back if its window is still the current one,
+			// otherwise it would be subtracted from the hits of a later window.
+			if e.exp == windowExp {
+				e.currHits--
+				remaining++
+				manager.set(key, e, cfg.Expiration)
+			}
 			// Unlock entry
 			mux.Unlock()
 		}
